@@ -1909,18 +1909,18 @@ class SequenceOfAndSetOfBase(base.ConstructedAsn1Type):
             except ValueError:
                 raise error.PyAsn1Error(sys.exc_info()[1])
 
-            componentValues = {}
-            for newIdx, oldIdx in enumerate(layout):
-                if oldIdx.__class__ is not tuple and oldIdx in previous:
-                    componentValues[newIdx] = previous[oldIdx]
-
-            self._componentValues = componentValues
+            self._componentValues = componentValues = {}
             try:
+                # in position order, which is the order the list
+                # operations (reverse, sort, count) walk the components in
                 for newIdx, item in enumerate(layout):
                     if item.__class__ is tuple:
                         self.setComponentByPosition(
                             newIdx, item[0], verifyConstraints,
                             matchTags, matchConstraints)
+
+                    elif item in previous:
+                        componentValues[newIdx] = previous[item]
 
             except Exception:
                 # a refused item: nothing has happened
